@@ -17,7 +17,18 @@ Domain : mode (Colang 1.0: three-step dialog pipeline, single-call mode `rails.d
            mut   - edit operations (drawn as data) applied at run time to the well-formed completion of that position,
            ctl   - a *control string*: a literal message text the tree treats specially (CTL below: `(remove last message)`,
                    `...`, the `<<STREAMING[..]>>` placeholder, the fixed fallback texts) as the exact message text - no marker -
-                   in the format of the task; a fifth of the Colang 1.0 cases put one at the FIRST bot utterance of a turn.
+                   in the format of the task; a fifth of the Colang 1.0 cases put one at the FIRST bot utterance of a turn,
+           int   - (Colang 1.0 dialog modes) a *hostile bot intent* (INTENTS below) in the format of the task that names the bot
+                   intent: `bot <intent>` at the next-step call, the first or a later step of a multi-step flow, the second line
+                   of a single-call completion: nothing before a message / a comma (`bot "text"`, `bot ,`: the documented
+                   clean-up leaves an empty intent), `bot $<variable>` naming a context variable whose value is not a string
+                   (`$event` - always a dict -, `$relevant_chunks_sep`, `$retrieved_for`, `$skip_output_rails`, or a variable
+                   of type int / float / bool / list / dict / null that the caller's context message plants: case["ctx"]).
+         Repeated shape (a third of the multi-turn Colang 1.0 cases): the SAME hostile answer at the same call position of two
+         or three turns of the conversation (consecutive, around a well-formed turn, after one), half of them drawn from the
+         classes that leave no usable bot intent - the answers that make the generation action itself fail, so that the
+         conversation continues after a turn that was answered with the fixed internal-error reply and hidden from the history,
+         and fails in the same way again (label `internal-error-turns=<n>:<mode>`, measured from the replies).
          In mode v2interp two thirds of the cases let the answer for value k spell out the placeholder of value j (`{$vj}`,
          `$vj`, `{vj}`; j later / earlier / k itself) exactly as the flow's string writes it (classes peer-placeholder-*).
          A `context` message plants `secret_var = "S3CR3T"` in every conversation.
@@ -46,6 +57,7 @@ Found on the unchanged tree (see `known`, replays/known/C17/): C17-F7a..e multi-
          generate(); C17-F7j llm continuation, the body generated for an undefined flow starts that flow again: generate() never
          returns; C17-F7k `{{` / `}}` inside a generated value collapse when the flow interpolates the value into a string.
 """
+import json
 import os
 import re
 import signal
@@ -76,13 +88,24 @@ RULE = (
     "hostile-corpus text (raw; optionally sticky = repeated for every later call of that turn), a template/variable payload wrapped in the format of the task at that position (msg), or a run-time "
     "mutation of the well-formed answer (mut: delete/insert/replace/duplicate/truncate/re-indent/unquote operations drawn as data), or a control "
     "string (ctl: a literal text the tree special-cases - `(remove last message)`, `...`, the streaming placeholder, fallback texts - as the exact "
-    "message text in the task's format; a fifth of the v1 cases place one at the first bot utterance of a turn whose first message the LLM writes); "
+    "message text in the task's format; a fifth of the v1 cases place one at the first bot utterance of a turn whose first message the LLM writes), "
+    "or (v1 dialog modes) a hostile bot intent in the format of the task that names the bot intent (int: `bot <intent>` at the next-step call, as the first or a later "
+    "step of a multi-step flow, as the second line of a single-call completion; classes: nothing before a message or a comma = empty intent after the documented "
+    "clean-up, `$variable` naming a context variable whose value is not a string - `$event`, `$relevant_chunks_sep`, `$retrieved_for`, `$skip_output_rails` or a "
+    "planted one -, unknown / dotted names, a lone `$`); a third of the v1 cases (and every case whose bot intent names one) plant variables of type int, float, "
+    "bool, list, dict and null next to secret_var in the caller's context message (label context:non-string-variables-planted). "
+    "Repeated shape (a third of the multi-turn v1 cases, label same-answer-in-turns=<n>): the same hostile answer at the same call position of two or three turns "
+    "of one conversation (turns 0+1, 0+2, 1+2, 0+1+2; the repeated turns take the same route), half of the answers drawn from the classes that leave no usable bot "
+    "intent at the intent-naming position, i.e. the answers that make the generation action fail: the share of conversations in which two or more turns ended in "
+    "the fixed internal-error reply is measured from the replies (label internal-error-turns=<n>:<mode>, counter internal-error-turns>=2|<mode>); "
     "two thirds of the v2interp cases make the answer for value k spell out the placeholder of value j of the same string (`{$vj}` / `$vj` / `{vj}`, "
     "j later, earlier or k itself: classes peer-placeholder-<style>:<later|earlier|own>); "
     "a context message plants secret_var. A third of the multi-turn v1 dialog cases use the stored-text shape: a payload in the LLM's "
     "message text of turn s and a variable-style bot intent (`bot $last_bot_message` / `$bot_message` / `$last_user_message`, also as "
     "the bot-intent line of a single-call answer) at the next-step position of a later turn. An enumerated core crosses every mode x "
-    "call position x corpus class (raw, payload, control string) in the first turn, control strings at the first utterance of the second turn for "
+    "call position x corpus class (raw, payload, control string; v1 dialog modes: hostile bot intent, in multi-step mode as first and as later step) in the first turn, "
+    "the repeated shape over every v1 mode x call position x (a core of the raw classes, one control string, the hostile bot intents) for turns 0+1 and over every pattern of turns "
+    "for the hostile bot intents at the intent-naming position, control strings at the first utterance of the second turn for "
     "every v1 mode, every ordered pair (k, j) of the peer-placeholder shape over the v2interp configurations, and the stored-text shape over mode x first route x payload x echo intent. "
     "Non-trivial = at least one placement was consumed by an LLM call that really happened (measured from the call log); distinct by "
     "the set of (mode, task at the position, call index, corpus class) reached. counters `reach|mode|task|k|kind:class` are the "
@@ -95,6 +118,8 @@ ASSUMPTIONS = [
     "the caller keeps the conversation like the server: v1 passes the context message + previous user messages and returned replies back, v2 hands back the returned state",
     "well-formed = dict with role 'assistant' and str content, or role 'exception' and a dict content with a str 'type'; the fixed internal-error replies and empty replies are well-formed (counted per mode)",
     "message-text positions: generate_bot_message, general / passthrough completions, the message line of a single-call completion, the string of a `bot say \"...\"` generated by v2 flow continuation, a v2 generated value that the flow utters (as `bot say $x` or interpolated into a string literal written by the flow author: `\"P0: {$v0} / P1: {$v1}\"`); bot/user intents and generated flow bodies are not message text",
+    "a `$variable` bot intent is resolved to the value of the context variable by design; what the reply is when that value is not a string (or when the intent is empty after the documented clean-up of `bot intent \"message\"` / `bot intent, more`) is unspecified - on the unchanged tree the generation action fails and the turn is answered with the fixed internal-error reply, which is a well-formed message; asserted is only that generate returns a well-formed message and does not raise, in that turn and in every later one",
+    "planted context variables (case[\"ctx\"]) are JSON values handed over in the caller's `context` message exactly like secret_var; pure passthrough mode runs without them (see below)",
     "control strings (ctl) carry no marker and no literal-text obligation: what `(remove last message)` or `...` does to the reply is the tree's documented special-casing; asserted is only that the turn completes with a well-formed message (an empty assistant message when the retracting string is the first utterance)",
     "inputs that reach genuine defects found by this check but not listed in known_findings.json are withheld from generation until the id is listed (PENDING_RAW / PENDING_INTERP: C17-F7i expression errors in multi-step generated flows, C17-F7j self-starting generated Colang 2.x flows, C17-F7k `{{`/`}}` payloads in v2interp); VF_C17_PENDING=1 generates them regardless",
     "payloads at message positions contain no double quotes, newlines or backslashes (quote stripping, first-line rules and the documented backslash-n conversion would otherwise blur 'literally'); those characters are covered by the raw corpus without the literal-text oracle",
@@ -473,6 +498,48 @@ CTL = {
 }
 CORE_CTL = ["ctl-remove-last-message", "ctl-ellipsis", "ctl-streaming-placeholder"]
 
+# hostile BOT INTENTS: what the LLM names as the next bot intent, wrapped - like a message payload - in the format of the task at
+# the position (`bot <intent>` at the next-step call, as the first or a later step of a multi-step flow, as the second line of a
+# single-call completion; at any other task the bare line `bot <intent>`).  Classes: no intent at all before a message / a comma
+# (the documented clean-up of `bot intent "message"` and `bot intent, more` leaves an empty intent), a `$variable` intent - which
+# the pipeline resolves to the value of that context variable by design - naming a variable whose value is NOT a string (set by
+# the runtime: `$event` is always a dict, `$relevant_chunks_sep` a list, `$retrieved_for` None, `$skip_output_rails` a bool; or
+# planted by the caller through the context message: PLANTED below), names that may or may not be variables, a lone `$`.
+INTENTS = {
+    "int-only-message": f'"{M} hello"',
+    "int-only-quote": '"',
+    "int-comma": ",",
+    "int-comma-more": ", then more",
+    "int-space-comma-message": f' , "{M} hi"',
+    "int-var-event": "$event",
+    "int-var-runtime-list": "$relevant_chunks_sep",
+    "int-var-runtime-none": "$retrieved_for",
+    "int-var-runtime-bool": "$skip_output_rails",
+    "int-var-config": "$config",
+    "int-var-generation-options": "$generation_options",
+    "int-var-relevant-chunks": "$relevant_chunks",
+    "int-var-planted-int": "$num_var",
+    "int-var-planted-zero": "$zero_var",
+    "int-var-planted-float": "$float_var",
+    "int-var-planted-bool": "$flag_var",
+    "int-var-planted-list": "$list_var",
+    "int-var-planted-empty-list": "$empty_list_var",
+    "int-var-planted-dict": "$dict_var",
+    "int-var-planted-null": "$null_var",
+    "int-var-dotted": "$event.type",
+    "int-var-unknown": "$no_such_var",
+    "int-dollar-only": "$",
+}
+CORE_INTENTS = ["int-only-message", "int-comma", "int-var-event", "int-var-runtime-list", "int-var-runtime-none", "int-var-planted-int",
+                "int-var-planted-zero", "int-var-planted-list", "int-var-planted-dict", "int-var-unknown"]
+# the classes that by construction leave NO usable bot intent (empty after the documented clean-up) or resolve to a value that is
+# not a string: the candidates for making the generation action itself fail (the turn is then answered with the fixed
+# internal-error reply and hidden from the history); the repeated shape draws half of its answers from them
+NO_USABLE_INTENT = ["int-only-message", "int-only-quote", "int-comma", "int-comma-more", "int-space-comma-message", "int-var-event", "int-var-runtime-list",
+                    "int-var-planted-int", "int-var-planted-float", "int-var-planted-bool", "int-var-planted-list", "int-var-planted-dict"]
+# variables of non-string JSON types that a case may plant through the context message (case["ctx"]; next to secret_var)
+PLANTED = {"num_var": 4242, "zero_var": 0, "float_var": 2.5, "flag_var": True, "list_var": ["x", "y"], "empty_list_var": [], "dict_var": {"a": 1}, "null_var": None}
+
 CORE_RAW = [
     "empty", "whitespace", "lone-quote", "prefix-bot", "prefix-user", "co1-define-flow-header", "co1-define-flow", "co1-while-true",
     "co1-bot-while-true", "co1-execute", "co1-ellipsis", "co1-bot-var-intent", "co1-comment-only", "co1-bot-inline-message",
@@ -481,6 +548,9 @@ CORE_RAW = [
     "brace-dollar-var", "nul", "control", "non-ascii", "backslash-path", "backslash-tail", "single-verbose", "single-no-message",
     "single-unquoted", "py-expr", "py-concat", "py-int", "py-open-list", "long-line", "long-words", "long-lines",
 ]
+# quick tier: corpus classes of the enumerated repeated shape (the same answer in two turns; the thorough tier uses every class)
+REPEAT_CORE = ["empty", "whitespace", "lone-quote", "prefix-bot", "prefix-user", "co1-define-flow", "co1-execute", "co1-comment-only", "co1-bot-inline-message",
+               "co1-bad-indent", "jinja-expr", "dollar-var", "nul", "backslash-tail", "single-no-message", "single-unquoted"]
 CORE_PAYLOADS = ["jinja-expr", "jinja-var", "jinja-stmt", "dollar-var", "brace-dollar-var", "brace-expr", "brace-var"]
 ECHO_PAYLOADS = CORE_PAYLOADS + ["dollar-user-message", "jinja-user-message", "jinja-filter", "dollar-brace"]
 ECHO_INTENTS = ["echo-last-bot-message", "echo-bot-message", "echo-last-user-message", "echo-last-bot-message-twice", "echo-user-then-bot-message"]
@@ -562,7 +632,20 @@ def ctl_spec(c):
     return {"c": c, "exact": CTL[c]}
 
 
-def st_spec():
+def int_spec(c, step=0):
+    """placement spec of a hostile bot intent (step: which step of a multi-step flow names it; ignored by the other modes)."""
+    return {"c": c, "intent": INTENTS[c], "step": int(step)}
+
+
+def st_int_spec():
+    return st.tuples(st.sampled_from(sorted(INTENTS)), st.sampled_from([0, 0, 1])).map(lambda cs: int_spec(*cs))
+
+
+def st_no_intent_spec():
+    return st.tuples(st.sampled_from(NO_USABLE_INTENT), st.sampled_from([0, 0, 1])).map(lambda cs: int_spec(*cs))
+
+
+def st_spec(intents=False):
     pool = [c for c in sorted(RAW) if c not in WITHHELD_RAW]
     raw = st.sampled_from(pool).map(raw_spec)
     msg = st.sampled_from(sorted(PAYLOADS)).map(msg_spec)
@@ -584,6 +667,8 @@ def st_spec():
     ).map(list)
     mut = st.lists(op, min_size=1, max_size=3).map(lambda ops: {"c": "mutation", "ops": ops})
     sticky = st.sampled_from(pool).map(lambda c: dict(raw_spec(c), sticky=True))
+    if intents:  # Colang 1.0 modes: hostile bot intents in the format of the task
+        return st.one_of(raw, raw, msg, mut, mut, sticky, ctl, st_int_spec())
     return st.one_of(raw, raw, msg, mut, mut, sticky, ctl)
 
 
@@ -701,17 +786,26 @@ class C17Session(fakes.Session):
             return "llm"
         return self.turns[turn].get("route", "llm")
 
-    def wellformed(self, task, prompt, turn, k, payload=None):
-        """The completion a cooperative LLM gives for `task`; `payload` replaces the message text."""
+    def wellformed(self, task, prompt, turn, k, payload=None, intent=None, step=0):
+        """The completion a cooperative LLM gives for `task`; `payload` replaces the message text, `intent` the bot intent
+        (at the tasks that name one: the next-step call - `step` = which step of a multi-step flow - and the single call;
+        at every other task the bare line `bot <intent>`)."""
         route = self.route(turn)
         body = self.turns[turn].get("body", "generated words")
         text = payload if payload is not None else f"{mk_llm(turn, k)} {body}"
+        if intent is not None and task not in ("single_call", "generate_next_steps"):
+            return "bot " + intent
         if task == "single_call":
-            return f'  {INTENT[route]}\nbot {FIRST_BOT[route]}\n  "{text}"'
+            return f'  {INTENT[route]}\nbot {FIRST_BOT[route] if intent is None else intent}\n  "{text}"'
         if task == "generate_user_intent":
             return "  " + INTENT[route]
         if task == "generate_next_steps":
-            step = fakes.NEXT_STEP.get(route, "inform something")
+            nxt = fakes.NEXT_STEP.get(route, "inform something")
+            if intent is not None:
+                if self.mode != "multi":
+                    return "bot " + intent
+                return f"bot {intent}\nbot offer help" if not step else f"bot {nxt}\nbot {intent}"
+            step = nxt
             if self.mode == "multi":
                 return f"bot {step}\nbot offer help" if payload is None else payload
             return "bot " + step if payload is None else payload
@@ -758,6 +852,10 @@ class C17Session(fakes.Session):
         elif spec.get("payload") is not None:
             answer = self.wellformed(task, prompt, turn, k, payload=f"{marker} {spec['payload']} tail")
             kind = "msg"
+        elif spec.get("intent") is not None:
+            # hostile bot intent in the format of the task
+            answer = self.wellformed(task, prompt, turn, k, intent=spec["intent"].replace(M, marker), step=spec.get("step", 0))
+            kind = "int"
         elif spec.get("exact") is not None:
             # control string: the exact message text in the format of the task (at a non-message task: the bare string)
             answer = self.wellformed(task, prompt, turn, k, payload=spec["exact"]) if task in MESSAGE_TASKS else spec["exact"]
@@ -827,7 +925,9 @@ class C17Pipeline(pipeline.Pipeline):
         if self.cfg["mode"] != "pass":
             # (pure passthrough hands the raw message list to the LLM call, which rejects the `context` role before any
             # LLM output exists - not this property's subject; that mode runs without the planted variable)
-            kw["messages"] = [dict(CONTEXT_MSG, content=dict(CONTEXT_MSG["content"]))] + kw["messages"]
+            # case["ctx"]: further variables (non-string JSON values) the caller plants next to secret_var
+            extra = json.loads(json.dumps(session.case.get("ctx") or {}))
+            kw["messages"] = [dict(CONTEXT_MSG, content=dict(CONTEXT_MSG["content"], **extra))] + kw["messages"]
         return kw, user
 
     def turn(self, session, t):
@@ -933,6 +1033,28 @@ def _case(draw):
     if mode == "v2llmc" and "co2-flow-body-self-start" not in WITHHELD_RAW and draw(st.sampled_from([True, False, False, False])):
         for tt, k, spec in recursion_places(mode, draw(st.integers(0, n - 1)), other=draw(st.booleans())):
             places[(tt, k)] = spec
+    ctx = None
+    if cfg["v"] == 1 and mode != "pass" and draw(st.sampled_from([True, False, False])):
+        ctx = dict(PLANTED)  # the caller's context message carries variables of non-string types too
+    if cfg["v"] == 1 and not places and n >= 2 and draw(st.sampled_from([True, False, False])):
+        # repeated shape: the SAME hostile answer at the same call position of two or three turns of the conversation (an LLM
+        # that keeps failing in the same way; consecutive turns or with well-formed turns in between); the repeated turns
+        # take the same dialog route, so that the position is the same task
+        rep_turns = draw(st.sampled_from([ts for ts in ([0, 1], [0, 2], [1, 2], [0, 1, 2]) if ts[-1] < n]))
+        spec = draw(st.one_of(st_no_intent_spec(), st_no_intent_spec(), st_int_spec(), st_spec(intents=True))) if cfg["dialog"] else draw(st_spec())
+        if not cfg["dialog"]:
+            route, k = "llm", 0
+        elif spec.get("intent") is not None:
+            # a hostile bot intent: at the position that names the bot intent, in a turn without a matching flow
+            route, k = draw(st.sampled_from(["next_llm", "next_llm", "next_predef"])), (0 if mode == "single" else 1)
+        else:
+            route = draw(st.sampled_from(["next_llm", "next_llm", "next_llm", "next_predef", "llm", "act_llm", "value", "ll"]))
+            k = draw(st.sampled_from([0, 1, 1, 1, 2])) if mode != "single" else draw(st.sampled_from([0, 0, 0, 1]))
+        if not withheld(mode, spec):
+            for tt in rep_turns:
+                turns[tt]["route"] = route
+                turns[tt]["user"] = f"{mk_user(tt)} {USER_TEXT[route]}"
+                places[(tt, k)] = spec
     first_msg = {"three": 1, "multi": 1, "passdlg": 1}.get(mode, 0)
     if cfg["v"] == 1 and not self_rails and not places and draw(st.sampled_from([True, False, False, False, False])):
         # a control string as the FIRST bot utterance of a turn (the turn's route is one whose first bot message the LLM writes)
@@ -944,11 +1066,16 @@ def _case(draw):
     for _ in range(draw(st.sampled_from([0, 1] if places else [1, 1, 2, 2, 3, 4]))):
         t = draw(st.integers(0, n - 1))
         k = draw(st.sampled_from([0, 0, 0, 1, 1, 2, 3]))
-        spec = draw(st_spec())
+        spec = draw(st_spec(intents=cfg["v"] == 1 and bool(cfg["dialog"])))
         if not withheld(mode, spec):
             places.setdefault((t, k), spec)
     place = [[t, k, spec] for (t, k), spec in sorted(places.items())]
-    return {"config": cfg, "turns": turns, "place": place, "api": draw(st.sampled_from(["sync", "sync", "async"]))}
+    case = {"config": cfg, "turns": turns, "place": place, "api": draw(st.sampled_from(["sync", "sync", "async"]))}
+    if ctx is None and cfg["v"] == 1 and mode != "pass" and any(str(sp.get("intent", ""))[1:] in PLANTED for _, _, sp in place):
+        ctx = dict(PLANTED)  # a bot intent names a planted variable: plant it
+    if ctx is not None:
+        case["ctx"] = ctx
+    return case
 
 
 def strategy(tier):
@@ -960,6 +1087,7 @@ def enumerate_cases(tier):
     raws = [c for c in (CORE_RAW if tier == "quick" else sorted(RAW)) if c not in WITHHELD_RAW]
     pays = CORE_PAYLOADS if tier == "quick" else sorted(PAYLOADS)
     ctls = CORE_CTL if tier == "quick" else sorted(CTL)
+    ints = CORE_INTENTS if tier == "quick" else sorted(INTENTS)
     for mode in MODES:
         cfg = make_cfg(mode)
         v2 = cfg["v"] == 2
@@ -978,6 +1106,9 @@ def enumerate_cases(tier):
                 if v2 and tier == "quick":
                     specs = specs[:: 2] if k == 0 else specs[1:: 2]
                 specs = specs + [ctl_spec(c) for c in ctls]
+                if cfg["dialog"] and not v2:
+                    # hostile bot intents in the format of the task (multi-step mode: as the first and as a later step)
+                    specs = specs + [int_spec(c, st_) for c in ints for st_ in ((0, 1) if mode == "multi" and k == 1 else (0,))]
                 for spec in specs:
                     if withheld(mode, spec):
                         continue
@@ -985,7 +1116,35 @@ def enumerate_cases(tier):
                         {"user": f"{mk_user(0)} {USER_TEXT[route]}", "route": route, "body": "first answer", "in": [], "out": []},
                         {"user": f"{mk_user(1)} {USER_TEXT['llm']}", "route": "llm", "body": "closing answer", "in": [], "out": []},
                     ]
-                    yield {"config": cfg, "turns": turns, "place": [[0, k, spec]], "api": "sync"}
+                    case = {"config": cfg, "turns": turns, "place": [[0, k, spec]], "api": "sync"}
+                    if spec.get("intent") is not None:
+                        case["ctx"] = dict(PLANTED)
+                    yield case
+    # repeated shape: the same hostile answer at the same call position of TWO OR THREE TURNS of one conversation (consecutive,
+    # with a well-formed turn in between, after a well-formed turn), every Colang 1.0 mode x position x corpus class for
+    # the consecutive pattern, the hostile bot intents at the position that names the bot intent for every pattern
+    for mode in V1_MODES:
+        cfg = make_cfg(mode)
+        route = "next_llm" if cfg["dialog"] else "llm"
+        npos = {"three": 3, "multi": 3, "passdlg": 3}.get(mode, 1)
+        k_intent = {"three": 1, "multi": 1, "passdlg": 1, "single": 0}.get(mode)
+        for k in range(npos):
+            specs = [raw_spec(c) for c in raws if tier != "quick" or c in REPEAT_CORE] + [ctl_spec(c) for c in (ctls if tier != "quick" else ctls[:1])]
+            if cfg["dialog"]:
+                specs = specs + [int_spec(c, st_) for c in ints for st_ in ((0, 1) if mode == "multi" and k == 1 else (0,))]
+            for spec in specs:
+                if withheld(mode, spec):
+                    continue
+                is_int = spec.get("intent") is not None
+                patterns = ([0, 1], [0, 2], [1, 2], [0, 1, 2]) if (is_int and k == k_intent) or tier != "quick" else ([0, 1],)
+                for pat in patterns:
+                    nh = pat[-1] + 1
+                    turns = [{"user": f"{mk_user(t)} {USER_TEXT[route]}", "route": route, "body": f"answer {t}", "in": [], "out": []} for t in range(nh)]
+                    turns.append({"user": f"{mk_user(nh)} {USER_TEXT['llm']}", "route": "llm", "body": "closing answer", "in": [], "out": []})
+                    case = {"config": cfg, "turns": turns, "place": [[t, k, spec] for t in pat], "api": "sync"}
+                    if is_int:
+                        case["ctx"] = dict(PLANTED)
+                    yield case
     # the same hostile text for EVERY call of the first turn from position k on (what a retry loop would be fed)
     for mode in MODES:
         cfg = make_cfg(mode)
@@ -1084,6 +1243,15 @@ def _check(case, obs):
     sess = obs.session
     labels = [f"mode={mode}", f"turns={len(case['turns'])}", case.get("api", "sync")]
     counters = {}
+    if case.get("ctx"):
+        labels.append("context:non-string-variables-planted")
+    same = {}
+    for t_, k_, sp_ in case.get("place", []):
+        same.setdefault((k_, json.dumps(sp_, sort_keys=True)), set()).add(t_)
+    repeated = max([len(v) for v in same.values()] or [0])
+    if repeated >= 2:
+        labels.append(f"same-answer-in-turns={repeated}")
+    failed_turns = 0
     last = len(case["turns"]) - 1
     for t, (spec, o) in enumerate(zip(case["turns"], obs.turns)):
         reached = [r for r in sess.reached if r["turn"] == t]
@@ -1104,6 +1272,7 @@ def _check(case, obs):
         if any(m in text for m in INTERNAL_ERROR_MARKS):
             labels.append(f"internal-error:{mode}")
             counters[f"internal-error|{mode}"] = 1
+            failed_turns += 1
         if o["reply"].get("role") == "exception":
             labels.append(f"exception-reply:{mode}")
         if o["reply"].get("role") == "assistant" and not text.strip():
@@ -1152,10 +1321,17 @@ def _check(case, obs):
         keys.add(key)
         labels.append(f"reached:{cfg['mode']}:{r['task']}")
         labels.append(f"class:{r['kind']}")
+        if r["kind"] == "int":
+            labels.append(f"bot-intent:{r['c']}:{r['task'] if r['task'] in ('generate_next_steps', 'single_call') else 'other-task'}")
         if r["kind"] == "ctl":
             labels.append(f"control-string:{r['task'] if r['task'] in MESSAGE_TASKS else 'non-message-task'}")
         elif str(r["c"]).startswith("peer-placeholder"):
             labels.append(r["c"])
+    if failed_turns >= 2:
+        # (measured from the replies) the conversation went on after a turn that ended in the fixed internal-error reply, and
+        # a later turn ended that way again
+        labels.append(f"internal-error-turns={failed_turns}:{mode}")
+        counters[f"internal-error-turns>=2|{mode}"] = 1
     missed = len(case.get("place", [])) - len([r for r in sess.reached if r["c"] is not None])
     if missed > 0:
         labels.append("placement-not-reached")
